@@ -151,6 +151,8 @@ def fault_class(case):
 # ---- gated execution (C08 / C09 / C15) -------------------------------------------------
 def engine_cfg_for(case):
     cfg = {"list_conc": bool(case["lconc"]), "seq_fields": tuple(sorted(case["seq"]))}
+    if case.get("argsync"):
+        cfg["args"] = "sync"          # arguments coerced one by one instead of gathered
     return cfg
 
 
